@@ -12,6 +12,9 @@ for d in $V/seeded/$G/; do
     C18-m6) props="C18 C07 C05";; C07-m5) props="C07 C04";; C07-m6) props="C07 C02";; C08-m5) props="C08 C15 C07";; C08-m6) props="C08 C20 C04";;
     C13-m5) props="C13 C02";; C15-m6) props="C15 C04";; C02-m5) props="C02 C13";; C02-m6) props="C02 C05 C18";; C12-m5) props="C12 C20";;
     C01-m6) props="C01 C11";; C11-m5) props="C11 C04 C02";; C04-m5) props="C04 C07";; C04-m6) props="C04 C06";; C18-m5) props="C18 C01";; C05-m6) props="C05 C18";;
+    C02-m7) props="C02 C13";; C02-m8) props="C02 C05 C03";; C04-m7) props="C04 C03";; C04-m8) props="C04 C06";; C07-m7) props="C07 C05";; C07-m8) props="C07 C15";;
+    C08-m7) props="C08 C03";; C08-m8) props="C08 C16";; C12-m7) props="C12 C02 C07";; C12-m8) props="C12 C08";; C18-m7) props="C18 C01";; C18-m8) props="C18 C07";;
+    C13-m4) props="C13 C02";; C06-m5) props="C06";; C11-m4) props="C11 C04";;
     C05-m2) props="C05 C02";; C18-m2) props="C18 C05";; C02-m4) props="C02 C05";; C05-m4) props="C05 C02";; C20-m3) props="C20 C04";; C07-m4) props="C07 C02";; C08-m4) props="C08 C07";;
   esac
   $V/tools/run_mutant.sh $id $B $props > $d/detect.txt 2>&1
